@@ -30,6 +30,7 @@ type FuncContract struct {
 	PkgPath  string // package the contract file belongs to ("" for lib)
 	Extern   bool
 	Requires []*Clause
+	Assumes  []*Clause // stated assumptions on the function's inputs that call sites are NOT asked to prove (listed in the evidence)
 	Ensures  []*Clause
 	Modifies []Expr
 	ModSrc   []string
@@ -37,11 +38,11 @@ type FuncContract struct {
 	Safety   map[string]bool // claimed safety obligation kinds
 	Tags     []string        // properties for safety obligations / frame
 	Replay   string
-	Inline   bool // "inline": body inlined at call sites even though loop invariants are given
+	Inline   bool     // "inline": body inlined at call sites even though loop invariants are given
 	Params   []string // optional explicit parameter names for externs (positional)
 	File     string
 	Line     int
-	NoVerify bool // extern: body not verified
+	NoVerify bool     // extern: body not verified
 	Fresh    []string // results declared fresh (newly allocated)
 	Devirt   string   // interface method: calls are resolved to this concrete type's method (pkg.Type), with an obligation that the dynamic type is that type
 }
@@ -92,7 +93,7 @@ type ContractFile struct {
 	Imports map[string]string
 }
 
-var keywordRe = regexp.MustCompile(`^(func|extern|requires|ensures|modifies|loop|pure|lemma|ghost|replay|inline|axiom|safety|tags|params|fresh|devirtualize|import)\b`)
+var keywordRe = regexp.MustCompile(`^(func|extern|requires|ensures|assumes|modifies|loop|pure|lemma|ghost|replay|inline|axiom|safety|tags|params|fresh|devirtualize|import)\b`)
 var tagRe = regexp.MustCompile(`^\[([A-Za-z0-9, ]+)\]\s*`)
 var labelRe = regexp.MustCompile(`^([A-Za-z][A-Za-z0-9_\-\.]*):\s+`)
 
@@ -168,7 +169,7 @@ func parseContractFile(path, pkgPath string, stripPrefix bool) (*ContractFile, e
 			fc.Key = strings.TrimSpace(txt)
 			cf.Funcs = append(cf.Funcs, fc)
 			cur = fc
-		case "requires", "ensures":
+		case "requires", "ensures", "assumes":
 			if cur == nil {
 				return nil, fmt.Errorf("%s:%d: clause outside func", path, it.line)
 			}
@@ -176,7 +177,12 @@ func parseContractFile(path, pkgPath string, stripPrefix bool) (*ContractFile, e
 			if err != nil {
 				return nil, err
 			}
-			if it.kw == "requires" {
+			if it.kw == "assumes" {
+				if c.Label == "" {
+					c.Label = fmt.Sprintf("assume%d", len(cur.Assumes)+1)
+				}
+				cur.Assumes = append(cur.Assumes, c)
+			} else if it.kw == "requires" {
 				if c.Label == "" {
 					c.Label = fmt.Sprintf("pre%d", len(cur.Requires)+1)
 				}
@@ -240,7 +246,12 @@ func parseContractFile(path, pkgPath string, stripPrefix bool) (*ContractFile, e
 			}
 		case "safety":
 			for _, k := range strings.Fields(strings.ReplaceAll(it.text, ",", " ")) {
-				cur.Safety[k] = true
+				switch k {
+				case "nil", "index", "overflow", "alloc", "div0", "assert-type", "nilmap-write", "all":
+					cur.Safety[k] = true
+				default:
+					return nil, fmt.Errorf("%s:%d: unknown safety kind %q", path, it.line, k)
+				}
 			}
 		case "tags":
 			for _, k := range strings.Fields(strings.NewReplacer(",", " ", "[", " ", "]", " ").Replace(it.text)) {
